@@ -169,12 +169,20 @@ end
 /-- `"    ".repeat(indent_level)` -/
 def indent (n : Nat) : Str := (List.replicate n s%"    ").flatten
 
-/-- `v.replace("\"\"\"", "\\\"\\\"\\\"")`: a `\"\"\"` in the doc text is written as `\\\"\\\"\\\"` -/
-def escapeDoc : Str → Str
+/-- `v.replace("\"\"\"", "\\\"\\\"\\\"")`: a `\"\"\"` in the text is written as `\\\"\\\"\\\"`
+(`str::replace`: leftmost non-overlapping matches) -/
+def escapeQuotes : Str → Str
   | c :: c2 :: c3 :: r =>
-    if c = '"' ∧ c2 = '"' ∧ c3 = '"' then s%"\\\"\\\"\\\"" ++ escapeDoc r
-    else c :: escapeDoc (c2 :: c3 :: r)
+    if c = '"' ∧ c2 = '"' ∧ c3 = '"' then s%"\\\"\\\"\\\"" ++ escapeQuotes r
+    else c :: escapeQuotes (c2 :: c3 :: r)
   | s => s
+
+/-- `v.replace('\\', "\\\\")`: every backslash of the doc text is doubled -/
+def escapeBackslashes (s : Str) : Str := Str.replaceChar s '\\' s%"\\\\"
+
+/-- one doc line inside a docstring (since the `fix:` commit 37d8a26):
+`v.replace('\\', "\\\\").replace("\"\"\"", "\\\"\\\"\\\"")` — backslashes first, then `\"\"\"` -/
+def escapeDoc (s : Str) : Str := escapeQuotes (escapeBackslashes s)
 
 /-- `write_comments(w, true, comments, indent)` -/
 def docstring (lvl : Nat) (cs : List Str) : Str :=
@@ -292,18 +300,21 @@ def writeStruct (E : Ext) (cfg : Cfg) (rs : RustStruct) (st : St) : Outcome (Str
 
 structure PyAlias where
   name : Str
-  generics : List Str     -- printed as `Name[T, U] = ...`; no `TypeVar` is declared for them
+  generics : List Str     -- not printed on the left-hand side; each one is declared as a `TypeVar`
   ty : Str
   comments : List Str
 deriving Repr, Inhabited
 
-/-- the doc comment is written *after* the assignment -/
+/-- `Name = <type>` (a generic alias is an ordinary assignment whose right-hand side mentions the
+type variables); the doc comment is written *after* the assignment -/
 def renderAlias (a : PyAlias) : Str :=
-  a.name ++ bracketSuffix a.generics ++ s%" = " ++ a.ty ++ s%"\n\n" ++ docstring 0 a.comments
+  a.name ++ s%" = " ++ a.ty ++ s%"\n\n" ++ docstring 0 a.comments
 
-/-- `write_type_alias` -/
+/-- `write_type_alias` (since the `fix:` commit 614135b): the type is formatted first, then every
+generic parameter is registered with `add_type_var` -/
 def aliasFacts (cfg : Cfg) (a : RustTypeAlias) (st : St) : Outcome (PyAlias × St) :=
   (formatType cfg a.genericTypes a.ty st).bind fun (ty, st) =>
+    let st := a.genericTypes.foldl addTypeVar st
     .ok ({ name := a.id.renamed, generics := a.genericTypes, ty, comments := a.comments }, st)
 
 structure PyConst where
